@@ -60,7 +60,14 @@ namespace pika::util::detail {
         template <typename T>
         static void* allocate(void* storage, std::size_t storage_size)
         {
-            if (sizeof(T) > storage_size) { return new aligned_storage_helper<T>; }
+            // The storage provided by the owner is only guaranteed to be aligned like a pointer:
+            // over-aligned objects live on the heap even if they would fit. A storage_size of
+            // std::size_t(-1) denotes the storage of an existing object that is being reused.
+            if (sizeof(T) > storage_size ||
+                (storage_size != std::size_t(-1) && alignof(T) > alignof(void*)))
+            {
+                return new aligned_storage_helper<T>;
+            }
             return storage;
         }
 
@@ -69,7 +76,11 @@ namespace pika::util::detail {
         {
             if (destroy) { get<T>(obj).~T(); }
 
-            if (sizeof(T) > storage_size) { delete static_cast<aligned_storage_helper<T>*>(obj); }
+            if (sizeof(T) > storage_size ||
+                (storage_size != std::size_t(-1) && alignof(T) > alignof(void*)))
+            {
+                delete static_cast<aligned_storage_helper<T>*>(obj);
+            }
         }
         void (*deallocate)(void*, std::size_t storage_size, bool);
 
